@@ -13,6 +13,7 @@ package main
 // stated about these functions: equal arguments give equal results, nothing else.
 
 import (
+	"fmt"
 	"go/types"
 	"strings"
 
@@ -59,6 +60,44 @@ func (e *Env) contentTermAt(st *State, b *Slice, arr string) string {
 	f := q("content!" + sanitize(leaves[0].Sort))
 	e.contentTerm(st, b) // declares f
 	return sx(f, mkSelect(arr, b.Arr), b.Off, b.Len)
+}
+
+// binary.LittleEndian.PutUint32/64(b, v) where b is a view of a [N]byte variable x cut at
+// offset lo: x becomes aput(x, lo, width, v) (uninterpreted: the array x with the width-byte
+// little-endian encoding of v written at lo). Writes through other slices are not modelled.
+func (e *Env) declAput() {
+	if !e.declared["aput"] {
+		e.declared["aput"] = true
+		e.sess.Cmd("(declare-fun |aput!| (Int Int Int Int) Int)")
+	}
+}
+
+func extPutUint(width int) externFn {
+	return func(e *Env, fr *Frame, fn *ssa.Function, args []Value, rt types.Type, st *State) Value {
+		b, ok := args[len(args)-2].(*Slice)
+		v, ok2 := args[len(args)-1].(*Sc)
+		if !ok || !ok2 {
+			unsupp("binary.PutUint: unexpected operands")
+		}
+		// index panic of the library function: len(b) >= width
+		e.panicCheck(fr, "index", st, sx("<=", fmt.Sprint(width), b.Len))
+		vo, isView := e.arrayViewAt[b.Arr]
+		if !isView || fr.pure {
+			unsupp("binary.PutUint%d into a slice that is not a view of a local byte array", 8*width)
+		}
+		e.declAput()
+		e.trust("binary.LittleEndian.PutUintNN into a [N]byte variable: the variable becomes aput(old, offset, width, value) (uninterpreted)")
+		if fl := e.flatten(e.load(st, vo.ptr)); len(fl) == 1 {
+			t := sx("|aput!|", fl[0], b.Off, fmt.Sprint(width), v.T)
+			if vo.n == width && b.Off == "0" {
+				// the whole array is overwritten: le(width, v), whatever it held
+				t = sx("|aput!|", "0", "0", fmt.Sprint(width), v.T)
+			}
+			nv := e.maybeNameForce(t, sInt, "arrv")
+			e.store(st, vo.ptr, e.fromLeaves(vo.ptr.pointee(), []string{nv}))
+		}
+		return nil
+	}
 }
 
 func builderChainPtr(p *Ptr) *Ptr {
